@@ -257,6 +257,21 @@ def root_reset(prog, fn):
                 d = b.switch_discr.get(bb)
                 if d is not None and not stores.get(bb):
                     d = strip(d)
+                    neg_ = False
+                    while d.kind == 'un' and d.args[0] == 'Not':
+                        d = strip(d.args[1])
+                        neg_ = not neg_
+                    # `if self.is_empty()`: a crate predicate that returns root == EMPTY_REF
+                    if d.kind == 'call' and prog.resolve(d) is not None and len(prog.resolve(d).body.cfg.returns) == 1 and prog.resolve(d).body.arg_count == 1:
+                        hb = prog.resolve(d).body
+                        rv = strip(hb.ret_val[hb.cfg.returns[0]])
+                        if rv.kind == 'bin' and rv.args[0] == 'Eq':
+                            hx, hy = strip(rv.args[1]), strip(rv.args[2])
+                            for p2, q2 in ((hx, hy), (hy, hx)):
+                                if p2.kind == 'load' and prog.self_field(p2) == ('root',) and prog.is_empty_ref(q2):
+                                    tr = edge_truth(b.mir['blocks'][bb]['term'], s)
+                                    if tr is not None and (tr != neg_):
+                                        e = True
                     if d.kind == 'bin' and d.args[0] in ('Eq', 'Ne'):
                         x, y = strip(d.args[1]), strip(d.args[2])
                         for p, q in ((x, y), (y, x)):
